@@ -14,7 +14,7 @@ pub const RULE: &str = "case = one sampling run: dataset of 2..60 DNA or protein
 pub const REQUIRED: &[&str] = &[
     "alphabet.dna", "alphabet.protein", "mode.oops", "mode.zoops", "arm.dispatch[generic]", "arm.dispatch[sse2]",
     "arm.dispatch[avx2]", "arm.dispatch[auto]", "steps.checked", "start_changed", "zoops.inclusion", "zoops.rejection",
-    "zoops.inactive_holdout", "data.masked_sequence", "data.sparse_background", "twin.compared", "dispatch_forced.generic",
+    "zoops.inactive_holdout", "data.masked_sequence", "data.sparse_background", "data.sampled_striped_sequences", "twin.compared", "dispatch_forced.generic",
     "dispatch_forced.sse2", "dispatch_forced.avx2",
 ];
 
@@ -56,16 +56,21 @@ fn run_once<A: Alphabet>(
     arm: Arm,
     rng_seed: u64,
     desc: &J,
+    sampled: Option<u64>,
 ) -> Result<Vec<Snapshot>, (String, String, J)> {
     let k = k_of::<A>();
-    let striped: Vec<StripedSequence<A, U32>> = seqs
-        .iter()
-        .map(|s| {
-            let mut st: StripedSequence<A, U32> = stripe_generic(&encoded::<A>(s));
-            st.configure_wrap(width);
-            st
-        })
-        .collect();
+    let striped: Vec<StripedSequence<A, U32>> = match sampled {
+        // sequences produced by StripedSequence::sample: every cell incl. the padding is random
+        Some(seed) => sampled_sequences::<A>(seed, seqs.iter().map(|s| s.len()).collect(), width),
+        None => seqs
+            .iter()
+            .map(|s| {
+                let mut st: StripedSequence<A, U32> = stripe_generic(&encoded::<A>(s));
+                st.configure_wrap(width);
+                st
+            })
+            .collect(),
+    };
     let data = SamplerData::new(&striped);
     let mut trace: Vec<Snapshot> = Vec::new();
     let mut rep = rep;
@@ -231,6 +236,17 @@ fn run_once<A: Alphabet>(
     Ok(trace)
 }
 
+fn sampled_sequences<A: Alphabet>(seed: u64, lens: Vec<usize>, width: usize) -> Vec<StripedSequence<A, U32>> {
+    lens.iter()
+        .enumerate()
+        .map(|(i, &l)| {
+            let mut st: StripedSequence<A, U32> = StripedSequence::sample(Rng::new(seed.wrapping_add(i as u64)), lightmotif::abc::Background::<A>::uniform(), l);
+            st.configure_wrap(width);
+            st
+        })
+        .collect()
+}
+
 fn gen_dataset(rng: &mut Rng, rep: &mut Report, k: usize, width: usize, flavour: usize) -> Vec<Vec<u8>> {
     let n = match flavour {
         2 => rng.range(3, 8),
@@ -268,7 +284,19 @@ fn run_case<A: Alphabet>(case: u64, rng: &mut Rng, rep: &mut Report, alpha: &str
     rep.cover(&format!("alphabet.{}", alpha));
     let width = if rng.chance(0.3) { rng.range(2, 6) } else { rng.range(2, 30) };
     let flavour = rng.below(4).min(2 + (rng.below(2))) % 3;
-    let seqs = gen_dataset(rng, rep, k, width, flavour);
+    let mut seqs = gen_dataset(rng, rep, k, width, flavour);
+    let sampled = if rng.chance(0.2) {
+        // replace the dataset by sequences drawn with StripedSequence::sample; the linear model is read
+        // back through the public Index of each striped sequence
+        let seed = rng.next_u64();
+        let st = sampled_sequences::<A>(seed, seqs.iter().map(|s| s.len()).collect(), width);
+        let wild = (k - 1) as u8;
+        seqs = st.iter().map(|x| (0..x.len()).map(|i| A::symbols().iter().position(|y| *y == x[i]).map(|p| p as u8).unwrap_or(wild)).collect()).collect();
+        rep.cover("data.sampled_striped_sequences");
+        Some(seed)
+    } else {
+        None
+    };
     let zoops = rng.chance(0.5);
     let mode = if zoops { SamplerMode::Zoops } else { SamplerMode::Oops };
     rep.cover(if zoops { "mode.zoops" } else { "mode.oops" });
@@ -299,7 +327,7 @@ fn run_case<A: Alphabet>(case: u64, rng: &mut Rng, rep: &mut Report, alpha: &str
         .set("rng_seed", J::UInt(rng_seed))
         .set("dataset_flavour", J::s(["sparse wildcards", "one masked sequence", "tiny dataset"][flavour]))
         .set("first_sequences", J::Arr(seqs.iter().take(3).map(|s| J::s(fmt_seq_short::<A>(s))).collect()));
-    let first = run_once::<A>(case, Some(rep), alpha, &seqs, width, mode.clone(), seeds, inertia, patience, steps, arm, rng_seed, &desc);
+    let first = run_once::<A>(case, Some(rep), alpha, &seqs, width, mode.clone(), seeds, inertia, patience, steps, arm, rng_seed, &desc, sampled);
     let t1 = match first {
         Err((kind, msg, wit)) => {
             rep.violate(&kind, case, msg, wit);
@@ -308,7 +336,7 @@ fn run_case<A: Alphabet>(case: u64, rng: &mut Rng, rep: &mut Report, alpha: &str
         Ok(t) => t,
     };
     // twin run: identical trace
-    let twin = run_once::<A>(case, None, alpha, &seqs, width, mode, seeds, inertia, patience, steps, arm, rng_seed, &desc);
+    let twin = run_once::<A>(case, None, alpha, &seqs, width, mode, seeds, inertia, patience, steps, arm, rng_seed, &desc, sampled);
     rep.cover("twin.compared");
     match twin {
         Err((kind, msg, wit)) => {
@@ -348,7 +376,7 @@ pub fn short_run<A: Alphabet>(case: u64, rng: &mut Rng, rep: &mut Report, alpha:
     let mode = if zoops { SamplerMode::Zoops } else { SamplerMode::Oops };
     let desc = J::obj().set("alphabet", J::s(alpha)).set("width", J::u(width)).set("sequences", J::u(n)).set("arm", J::s(arm.name()));
     let seed = rng.next_u64();
-    if let Err((kind, msg, wit)) = run_once::<A>(case, Some(rep), alpha, &seqs, width, mode, 2, if zoops { Some(3) } else { None }, None, steps, arm, seed, &desc) {
+    if let Err((kind, msg, wit)) = run_once::<A>(case, Some(rep), alpha, &seqs, width, mode, 2, if zoops { Some(3) } else { None }, None, steps, arm, seed, &desc, None) {
         rep.violate(&kind, case, msg, wit);
     }
     let mut d = Digest::new();
